@@ -52,6 +52,10 @@ type wrapper struct {
 }
 
 func (w *wrapper) Invoke(ctx context.Context, method string, args any, reply any, opts ...grpc.CallOption) error {
+	if err := ctx.Err(); err != nil {
+		// like gRPC, a call on a context that has already ended fails as such and never reaches the handler
+		return status.FromContextError(err).Err()
+	}
 	matched, ok := w.methods[method]
 	if !ok {
 		return ErrMethodNotFound
@@ -71,6 +75,10 @@ func (w *wrapper) Invoke(ctx context.Context, method string, args any, reply any
 	}()
 
 	if err := cs.SendMsg(args); err != nil {
+		if ctxErr := ctx.Err(); ctxErr != nil {
+			// the request was not taken because the caller's context ended, not because the handler returned
+			return status.FromContextError(ctxErr).Err()
+		}
 		return err
 	}
 	if err := cs.CloseSend(); err != nil {
@@ -87,6 +95,9 @@ func (w *wrapper) Invoke(ctx context.Context, method string, args any, reply any
 }
 
 func (w *wrapper) NewStream(ctx context.Context, desc *grpc.StreamDesc, method string, _ ...grpc.CallOption) (grpc.ClientStream, error) {
+	if err := ctx.Err(); err != nil {
+		return nil, status.FromContextError(err).Err()
+	}
 	matched, ok := w.streams[method]
 	if !ok {
 		if matchedMethod, ok := w.methods[method]; ok {
